@@ -71,7 +71,7 @@ func verifStrandedFinal(c *connection) func() {
 //     SetOnRequest at any moment (before, between, after): the buffered input is offered
 //
 //verif:po
-//verif:bounds 2 deliveries (sizes symbolic in [1,4]), handler consumes any 1..Len per call, <= 3 task instances, state revisits <= 3; buffers summarised on length
+//verif:bounds scenarios 0-4: 2 deliveries (sizes symbolic in [1,4]) / SetOnRequest racing a delivery / delivery + hang-up / OnConnect running / handler-less connection with delivery + hang-up + SetOnRequest; handler consumes any 1..Len per call, <= 3 task instances, state revisits <= 3; buffers summarised on length
 //verif:param 0 4
 //verif:loop 40
 //verif:poloop 3
